@@ -29,6 +29,7 @@ type Config struct {
 	Merge       map[string]bool // callees executed with path merging (must be statically pure)
 	Tier        int // 0 quick, 1 thorough (read by harnesses through nd.Tier/nd.Bound)
 	Trace       bool
+	HashInjective bool // assume the hash UFs are collision-free on the explored pre-images
 	FmtInts     bool // fmt.Sprintf renders symbolic integers exactly (forks on the digit count)
 	NoIfConv    bool // disable if-conversion of side-effect-free diamonds (debugging)
 }
@@ -93,7 +94,10 @@ type Machine struct {
 	threads  *sched
 	ufInj    map[string][]T
 	onceDone map[Ptr]bool
+	hashAcc  map[Ptr][]T
+	ufApps   map[string][]ufApp
 	curH     int
+	curFn    string // racy debug info: function currently interpreted
 	scope    *sumScope
 
 	InitNotes []string
